@@ -208,7 +208,7 @@ class Prop(fw.PropBase):
 
     def exhaustive_cases(self):
         """all write sequences of length <= L on 3 paths x fault scripts of <= 2 faults x small configurations"""
-        L = 5 if self.tier == 'thorough' else 3
+        L = 5 if self.tier == 'thorough' else 4
         cfgs = [(1, 1), (1, 2), (2, 1), (2, 3)] if self.tier == 'thorough' else [(1, 1), (2, 2)]
         scripts = []
         faults = [('soft', i) for i in range(4)] + [('hard', i) for i in range(3)] + [('perm', 1)]
@@ -296,7 +296,7 @@ class Prop(fw.PropBase):
             for f in sorted(os.listdir(cdir)):
                 if f.endswith('.json'):
                     corpus.append(json.load(open(os.path.join(cdir, f)))['case'])
-        rnd = [self.gen_case() for _ in range(1500 if quick else 20000)]
+        rnd = [self.gen_case() for _ in range(2500 if quick else 20000)]
         big = [self.gen_case(big=True) for _ in range(6 if quick else 60)]
         exh = self.exhaustive_cases()
         return corpus, rnd, big, exh
@@ -361,8 +361,10 @@ class Prop(fw.PropBase):
             'open_calls_failed': n_fail_open, 'reopens_in_append_mode': n_reopen,
             'recoveries_close_all_and_retry': n_recover,
             'precondition_hit_rate': round(good / max(1, len(ok_runs)), 4),
-            'exhaustive': 'all write sequences (up to renaming of paths) of length <= %d on 3 paths x fault scripts with <= 2 '
-                          'faults x EMFILE limit 0/1/2 x %d configurations' % ((5, 4) if self.tier == 'thorough' else (3, 2)),
+            'exhaustive': False,
+            'exhaustive_small_scope': 'inside the sampled run: all write sequences (up to renaming of paths) of length <= %d on 3 '
+                                      'paths x %s fault scripts with <= 2 faults x EMFILE limit 0/1/2 x %d configurations'
+                                      % ((5, 'all', 4) if self.tier == 'thorough' else (4, 'every third of the', 2)),
             'samples': [{'case': {k: v for k, v in c.items()}, 'impl': {k: r.get(k) for k in ('k', 'status', 'trace', 'files')}}
                         for l, c, r in ok_runs[len(ok_runs) // 3: len(ok_runs) // 3 + 2] if len(c['ops']) < 15][:2],
         })
@@ -400,41 +402,6 @@ class Prop(fw.PropBase):
                             % (len(dis), len(ok_runs), dis[0]['diff'], dis[0]['case']))
 
     # ---------------------------------------------------------------- search
-    def impl_one(self, cases):
-        return fw.run_impl('impl_c19.py', {'cases': cases})['cases']
-
-    def shrink(self, case, key):
-        """greedy: drop operations / faults / options while the same kind of violation remains"""
-        def bad(c, r):
-            return any(k == key for k, _ in spec_violations(c, r))
-        cur = case
-        for _round in range(40):
-            cands = []
-            for i in range(len(cur['ops'])):
-                c = dict(cur); c['ops'] = cur['ops'][:i] + cur['ops'][i + 1:]
-                if c['ops']:
-                    cands.append(c)
-            sc = cur['script']
-            for kind in ('soft', 'hard', 'perm'):
-                for i in range(len(sc.get(kind, []))):
-                    c = dict(cur); c['script'] = dict(sc); c['script'][kind] = sc[kind][:i] + sc[kind][i + 1:]
-                    cands.append(c)
-            if cur['init']:
-                c = dict(cur); c['init'] = []; cands.append(c)
-            if any(len(o[1]) > 2 for o in cur['ops']):
-                c = dict(cur); c['ops'] = [[o[0], '%d;' % i, o[2]] for i, o in enumerate(cur['ops'])]; cands.append(c)
-            if cur.get('plain'):
-                c = dict(cur); c['plain'] = []; cands.append(c)
-            if not cands:
-                break
-            cands = cands[:400]
-            rs = self.impl_one(cands)
-            nxt = next((c for c, r in zip(cands, rs) if bad(c, r)), None)
-            if nxt is None:
-                break
-            cur = nxt
-        return cur, self.impl_one([cur])[0]
-
     def search(self):
         runs = getattr(self, 'runs', None) or self.run_everything()
         found = {}
@@ -445,22 +412,33 @@ class Prop(fw.PropBase):
             for key, text in spec_violations(c, r):
                 if key not in found or len(c['ops']) < len(found[key][1]['ops']):
                     found[key] = (l, c, r, text)
-        for key, (l, c, r, text) in sorted(found.items()):
+        order = ['retry-keyerror', 'other-exception', 'content', 'raise-under-good-script', 'raise-not-hopeless',
+                 'invalid-file', 'leak', 'close-raised', 'foreign-path', 'harness-error']
+        keys = sorted(found, key=lambda k: order.index(k) if k in order else 99)
+        jobs = [{'key': k, 'case': found[k][1]} for k in keys if found[k][1] is not None and k != 'harness-error']
+        shrunk = {}
+        try:
+            rs = fw.run_impl('impl_c19.py', {'shrink': jobs}, timeout=600)['shrink']
+            for j, r in zip(jobs, rs):
+                if not r.get('error'):
+                    shrunk[j['key']] = (r['case'], r['res'])
+        except Exception as e:
+            self.notes.append('shrinking failed: %r' % (e,))
+        for key in keys:
+            l, c, r, text = found[key]
             if c is None:
                 self.witnesses.append({'key': key, 'what': text, 'input': None})
                 continue
-            if l in ('limiter', 'fastq') and key != 'harness-error':
-                try:
-                    c2, r2 = self.shrink(c, key)
-                    vs = [t for k, t in spec_violations(c2, r2) if k == key]
-                    if vs:
-                        c, r, text = c2, r2, vs[0]
-                except Exception as e:
-                    self.notes.append('shrinking failed: %r' % (e,))
+            if key in shrunk:
+                c2, r2 = shrunk[key]
+                vs = [t for k, t in spec_violations(c2, r2) if k == key]
+                if vs:
+                    c, r, text = c2, r2, vs[0]
             exp = expected_files(c, len(c['ops']))
             self.witnesses.append({
-                'key': key, 'what': 'HandleLimiter(maxHandles=%r, pruneEvery=%r), writes %r, fault script %r: %s'
-                                    % (c['maxHandles'], c['pruneEvery'], [(o[0], o[1]) for o in c['ops']][:12], c['script'], text),
+                'key': key, 'what': 'HandleLimiter(maxHandles=%r, pruneEvery=%r), pre-existing files %r, writes %r, fault script %r: %s'
+                                    % (c['maxHandles'], c['pruneEvery'], c['init'],
+                                       [(o[0], o[1]) + (('forceAppend',) if o[2] else ()) for o in c['ops']][:12], c['script'], text),
                 'input': c, 'impl': {k: r.get(k) for k in ('k', 'status', 'files', 'trace', 'leaked', 'read_errors')},
                 'expected': {'status': 'no exception unless open() fails with no other handle open',
                              'files': sorted(exp.items())}})
